@@ -371,3 +371,66 @@ def _judge_helper(out, name, ts, T, code):
 # The documented permanent (non-retryable) codes - the reference of the oracle, taken from
 # the documentation strings of protocol/types/errors.py at the pinned commit.
 REF_NON_RETRYABLE = set({-32700, -32600, -32601, -32602, -32003, -32005, -32006, -32007, -32008, -32000})  # a plain set: CrossHair decides membership of a symbolic int in a set, not in a frozenset
+
+
+# ------------------------------------------------------------------ size dimension: long ids, long params, many distractors
+from symcheck.consts import size_cases, pick  # noqa: E402
+
+ID_SIZES = size_cases(70000)       # id lengths: every constant of the source tree +-1 (regenerated per run)
+COUNT_SIZES = size_cases(1100)     # number of distractors before the answer
+
+
+def _long_ids(n, where):
+    P = "p" * n
+    if where == 0:
+        return P + "A", P + "B"          # differ in the last character only
+    if where == 1:
+        return "A" + P, "B" + P          # differ in the first character only
+    if where == 2:
+        return P + "A", P + "AB"         # the distractor extends the request's id
+    return P + "A" + P, P + "B" + P      # differ in the middle
+
+
+def idlong(kinds, k, where):
+    rid, other = _long_ids(pick(ID_SIZES, k), where)
+    return idfam(kinds, [1] * len(kinds), 100, rid, other)
+
+
+def idlong_real(kinds, k, where):
+    rid, other = _long_ids(pick(ID_SIZES, k), where)
+    return idfam_real(kinds, [1] * len(kinds), 100, rid, other)
+
+
+def paramlong(k, fill):
+    n = pick(ID_SIZES, k)
+    leaf = ("x" if fill == 0 else ("é" if fill == 1 else "\U0001F600")) * n
+    return methfam(2, "tools/call", leaf, 1, 100)
+
+
+def many(kind, k, T, lim=1100):
+    """k distractors of one kind (one per tick), then the matching result"""
+    n = pick(size_cases(lim), k)
+    script = [(1 + i, build(kind, i, RID)) for i in range(n)] + [(1 + n, build(K_RESULT, n, RID))]
+    kinds = (kind,) * n + (K_RESULT,)
+    # the stub world delays the i-th scripted item by (i+1)/8 tick (tie-free clock): beyond 7 items that crosses ticks
+    from symcheck.env import fine_arrival, SUB
+    ts = [fine_arrival(script[i][0], i) // SUB for i in range(len(script))]
+    out = run_stub(script, lambda r, w: SM.send_message(r, w, METHOD, dict(PARAMS), timeout=Ticks(T), message_id=RID))
+    return _judge_sched(out, kinds, ts, T, RID, METHOD, PARAMS)
+
+
+
+def idnear(kinds, i, swap, real=False):
+    """request id / distractor id pairs that a lossy comparison could identify (see h_C18.pick_near)"""
+    from harness.h_C18 import pick_near
+
+    a, b = pick_near(i)
+    if swap:
+        a, b = b, a
+    if a == 0 or a == "":
+        return "ok"
+    return (idfam_real if real else idfam)(kinds, [1] * len(kinds), 100, a, b)
+
+
+def idnear_real(kinds, i, swap):
+    return idnear(kinds, i, swap, real=True)
